@@ -361,6 +361,29 @@ public:
     o["i"] = id;
     o["k"] = S->getStmtClassName();
     o["l"] = lineOf(S->getBeginLoc());
+    // an argument the caller did not write (default argument of the callee): the expression lives in the callee's declaration
+    for (const Stmt* W = S0; W && W != S;)
+      {
+        if (isa<CXXDefaultArgExpr>(W))
+          {
+            o["defarg"] = true;
+            break;
+          }
+        const Stmt* N = nullptr;
+        if (const auto* E = dyn_cast<ImplicitCastExpr>(W))
+          N = E->getSubExpr();
+        else if (const auto* E = dyn_cast<ParenExpr>(W))
+          N = E->getSubExpr();
+        else if (const auto* E = dyn_cast<ExprWithCleanups>(W))
+          N = E->getSubExpr();
+        else if (const auto* E = dyn_cast<MaterializeTemporaryExpr>(W))
+          N = E->getSubExpr();
+        else if (const auto* E = dyn_cast<CXXBindTemporaryExpr>(W))
+          N = E->getSubExpr();
+        else if (const auto* E = dyn_cast<ConstantExpr>(W))
+          N = E->getSubExpr();
+        W = N;
+      }
     json::Array ch;
     bool defaultChildren = true;
 
